@@ -75,6 +75,14 @@ def rule_reset_coverage(ctx, cfg, r):
                 got[e[1][2]] = e[2]
             if e[0] in ("call", "enter") and e[1].endswith("DecompressorOxide::init"):
                 init = True
+            if e[0] in ("call", "enter"):
+                # whatever a function on the path must-write (e.g. a window cleared element by element) counts as restored
+                for g_ in c.fns.values():
+                    if g_.name == e[1] and g_.kind != "promoted":
+                        sm_ = E.lookup(g_.id)
+                        for (of_, fl_) in (sm_["MW"] if sm_ else ()):
+                            if of_.endswith("InflateState") and fl_ != "data_format":
+                                got.setdefault(fl_, ("must-written by", e[1]))
         miss = sorted(want - set(got))
         if miss:
             bad.append("fields not restored: %s" % miss)
